@@ -35,6 +35,12 @@ KEYCFGS = {
     "2same": (["k", "k2"], ["k", "k2"]),
     "2diff": (["lk", "lk2"], ["rk", "rk2"]),
     "2part": (["k", "lk2"], ["k", "rk2"]),
+    # differently named two-column keys whose alphabetical order is NOT the same on both sides (p~s, q~r)
+    "2rev": (["p", "q"], ["s", "r"]),
+    # the same two names on both sides, paired crosswise (left k = right k2, left k2 = right k)
+    "2swap": (["k", "k2"], ["k2", "k"]),
+    # three columns, names in a different relative order on each side, one pair equally named
+    "3mix": (["u", "k", "w"], ["z", "k", "v"]),
 }
 
 # ----------------------------------------------------------------------------------------------------------------
@@ -465,6 +471,12 @@ def witness_cases() -> List[Dict[str, Any]]:
         # differently named keys, single and two-column
         w.append({"t": t, "keycfg": "1diff", "lk": ["lk"], "rk": ["rk"], "ls": ["lk", "a"], "rs": ["rk", "b"], "L": [[1, 10], [2, 11]], "R": [[2, 20], [3, 21]]})
         w.append({"t": t, "keycfg": "2part", "lk": ["k", "lk2"], "rk": ["k", "rk2"], "ls": ["k", "lk2", "a"], "rs": ["k", "rk2", "b"], "L": [[1, 1, 10], [2, 1, 11]], "R": [[2, 1, 20], [3, 1, 21]]})  # fmt: skip
+    for t in JOINS4:
+        # two-column keys whose names come in a different relative order on each side: pairing is positional, rows (1,2)/(2,1) tell a wrong pairing
+        w.append({"t": t, "keycfg": "2rev", "lk": ["p", "q"], "rk": ["s", "r"], "ls": ["p", "q", "a"], "rs": ["s", "r", "b"],
+                  "L": [[1, 2, 10], [2, 1, 11], [2, 2, 12]], "R": [[1, 2, 20], [2, 1, 21], [3, 3, 22]]})  # fmt: skip
+        w.append({"t": t, "keycfg": "2swap", "lk": ["k", "k2"], "rk": ["k2", "k"], "ls": ["k", "k2", "a"], "rs": ["k2", "k", "b"],
+                  "L": [[1, 2, 10], [2, 1, 11], [2, 2, 12]], "R": [[1, 2, 20], [2, 1, 21], [3, 3, 22]]})  # fmt: skip
     w.append({"t": "UNION", "keycfg": "1same", "lk": ["k"], "rk": ["k"], "ls": ["k", "a"], "rs": ["k", "a"], "L": [[1, 7], [1, 8]], "R": [[1, 7], [2, 7]]})
     w.append({"t": "APPEND", "keycfg": "1same", "lk": ["k"], "rk": ["k"], "ls": ["k", "a"], "rs": ["k", "a"], "L": [[1, 7], [1, 7]], "R": [[1, 7], [None, 7]]})
     for c in w:
@@ -477,7 +489,7 @@ def exhaustive_cases(two_col: bool) -> List[Dict[str, Any]]:
     overlapping non-key column with position-determined values, four joins x key namings; and for append/union all pairs of
     0..2-row tables over rows (k in {1,2,null}) x (a in {7,8})"""
     out: List[Dict[str, Any]] = []
-    cfgs = ["2same", "2diff", "2part"] if two_col else ["1same", "1diff"]
+    cfgs = ["2same", "2diff", "2part", "2rev", "2swap"] if two_col else ["1same", "1diff"]
     keyvals: List[Tuple[Any, ...]] = [(a, b) for a in (1, 2, None) for b in (1, None)] if two_col else [(a,) for a in (1, 2, None)]
     tables = [()] + [(a,) for a in keyvals] + [(a, b) for a in keyvals for b in keyvals]
     for cfg in cfgs:
